@@ -118,6 +118,17 @@ EXPORT errno_t _memcmp16_s_chk(const uint16_t *dest, rsize_t dlen,
         return (RCNEGATE(ESZEROL));
     }
 
+    /* the element counts first: dlen * 2 and slen * 2 below must not wrap */
+    if (unlikely(dlen > RSIZE_MAX_MEM16)) {
+        invoke_safe_mem_constraint_handler("memcmp16_s: dlen exceeds max",
+                                           (void *)dest, ESLEMAX);
+        return (RCNEGATE(ESLEMAX));
+    }
+    if (unlikely(slen > RSIZE_MAX_MEM16)) {
+        invoke_safe_mem_constraint_handler("memcmp16_s: slen exceeds max",
+                                           (void *)src, ESLEMAX);
+        return (RCNEGATE(ESLEMAX));
+    }
     dmax = dlen * 2;
     smax = slen * 2;
     if (destbos == BOS_UNKNOWN) {
